@@ -91,7 +91,21 @@ GROUP_GEN = ["SELECT %s%s FROM t1 GROUP BY %s%s" % (dq, tg, gb, hv)
              for hv in ('', ' HAVING count(*) > 1')]
 GROUP_GEN += ["SELECT DISTINCT a FROM t1 WHERE b IS NOT NULL", "SELECT DISTINCT a, b FROM t1 ORDER BY a, b LIMIT 2", "SELECT count(DISTINCT a) AS n, count(a) AS m FROM t1 GROUP BY b",
               "SELECT DISTINCT t1.a FROM t1 JOIN t2 ON t1.id = t2.id", "SELECT DISTINCT s.a FROM (SELECT a, b FROM t1 GROUP BY a, b) AS s"]
-SELECTS = SELECTS + ORDER_GEN + SETOP_TAIL + GROUP_GEN
+# window functions: ranking and aggregate functions x partition x ordering (direction, NULL placement) x frame
+_WORD = [(d, n) for d in ('', ' DESC') for n in ('', ' NULLS FIRST', ' NULLS LAST')]
+WINDOW_GEN = ["SELECT id, %s OVER (%sORDER BY a%s%s) AS r FROM t1" % (f, part, d, n)
+              for f in ('rank()', 'dense_rank()', 'row_number()', 'sum(b)', 'count(b)') for part in ('', 'PARTITION BY b ') for d, n in _WORD]
+WINDOW_GEN += ["SELECT id, %s OVER (%s) AS r FROM t1" % (f, w) for f in ('sum(a)', 'count(*)', 'min(a)', 'max(a)', 'count(DISTINCT a)')
+               for w in ('', 'PARTITION BY b', 'PARTITION BY a, b', 'ORDER BY b', 'PARTITION BY b ORDER BY id DESC')]
+WINDOW_GEN += ["SELECT id, %s OVER (ORDER BY %s %s BETWEEN %s AND %s) AS r FROM t1" % (f, k, unit, lo, hi)
+               for f in ('sum(a)', 'count(a)', 'max(a)') for k in ('b', 'id DESC') for unit in ('ROWS', 'RANGE')
+               for lo, hi in (('UNBOUNDED PRECEDING', 'CURRENT ROW'), ('CURRENT ROW', 'UNBOUNDED FOLLOWING'), ('UNBOUNDED PRECEDING', 'UNBOUNDED FOLLOWING'), ('CURRENT ROW', 'CURRENT ROW'))]
+WINDOW_GEN += ["SELECT id, rank() OVER (ORDER BY a, b DESC) AS r FROM t1 ORDER BY id LIMIT 2",
+               "SELECT id, rank() OVER (ORDER BY a) AS r, sum(a) OVER (PARTITION BY b) AS s FROM t1 WHERE a IS NOT NULL",
+               "SELECT s.id FROM (SELECT id, row_number() OVER (PARTITION BY b ORDER BY a DESC, id) AS rn FROM t1) AS s WHERE s.rn = 1",
+               "SELECT t1.id, count(t2.c) OVER (PARTITION BY t1.a ORDER BY t2.c NULLS LAST) AS n FROM t1 LEFT JOIN t2 ON t1.id = t2.id",
+               "SELECT id, rank() OVER (ORDER BY a + b DESC NULLS LAST, id) AS r FROM t1"]
+SELECTS = SELECTS + ORDER_GEN + SETOP_TAIL + GROUP_GEN + WINDOW_GEN
 
 DML = [
     "DELETE FROM t1 WHERE a > 1",
